@@ -280,6 +280,14 @@ type eofJoinConn struct {
 	net.Conn
 	join    int32
 	pending []byte
+	wbroken int32 // the direction broker -> client is dead: writes fail, reads go on
+}
+
+func (c *eofJoinConn) Write(b []byte) (int, error) {
+	if atomic.LoadInt32(&c.wbroken) == 1 {
+		return 0, fmt.Errorf("write: broken pipe")
+	}
+	return c.Conn.Write(b)
 }
 
 func (c *eofJoinConn) Read(b []byte) (int, error) {
@@ -437,6 +445,7 @@ func brokerEventFn(seq uint64, ev string, svc uint64, a, b, c int64, s string) {
 }
 
 type bConn struct {
+	broken bool // action "breakout": nothing the broker sends arrives any more; not compared, no barrier
 	c      net.Conn
 	srv    *eofJoinConn // the broker's side of the pipe
 	svc    uint64
@@ -1074,6 +1083,13 @@ func runBehaviour(steps []bStep, auth string, maxqos int, res *Result) (result *
 			if _, err := m.c.Write(b); err != nil {
 				return &brokerMismatch{where + ": write: " + err.Error(), "C05"}
 			}
+		case "breakout":
+			m := r.conns[a.C]
+			if m.srv != nil {
+				atomic.StoreInt32(&m.srv.wbroken, 1)
+			}
+			m.broken = true
+			skipBarrier[a.C] = true
 		case "apipublish":
 			msg := message.NewPublishMessage()
 			msg.SetTopic([]byte(wireTopic(a.T)))
@@ -1134,7 +1150,7 @@ func runBehaviour(steps []bStep, auth string, maxqos int, res *Result) (result *
 		}
 		var others []string
 		for name, m := range r.conns {
-			if name != a.C && !m.closed {
+			if name != a.C && !m.closed && !m.broken {
 				others = append(others, name)
 			}
 		}
@@ -1234,6 +1250,9 @@ func runBehaviour(steps []bStep, auth string, maxqos int, res *Result) (result *
 		}
 		sort.Strings(names)
 		for _, name := range names {
+			if m := r.conns[name]; m != nil && m.broken {
+				continue
+			}
 			exp := st.Out[name]
 			g := got[name]
 			if _, isLocal := r.locals[name]; isLocal || strings.HasPrefix(name, "L") {
